@@ -528,6 +528,124 @@ def parse_hadrons_file(path, group):
 
 
 # ------------------------------------------------------------------------------------------------
+# Hadrons DistillationContraction:  <path>/data.<cfg>/<stem>.<cfg>.h5
+#   /DistillationContraction/Metadata              attrs TimeSources = ["0..."], Nt = [Nt]
+#   /DistillationContraction/Metadata/DmfInputFiles attrs DmfInputFiles_<k> = ["<dir>/<Gamma>_p<mom>_n<vec>_t<t>.h5"], n = [count]
+#   /DistillationContraction/Correlators/<diagram>/<x0>   compound {re, im}[Nt] for every source time x0
+# ------------------------------------------------------------------------------------------------
+H5_COMPLEX = np.dtype([('re', '<f8'), ('im', '<f8')])
+
+
+def _compound(z):
+    z = np.asarray(z, dtype=complex)
+    a = np.empty(z.shape, dtype=H5_COMPLEX)
+    a['re'] = z.real
+    a['im'] = z.imag
+    return a
+
+
+def write_distillation_file(path, inputs, data, Nt, time_sources='0...'):
+    """inputs: list of strings '<Gamma>_p<mom>_n<vec>_t<t>'; data: {diagram: complex array [x0][t]}."""
+    import h5py
+    with h5py.File(path, 'w') as f:
+        md = f.create_group('DistillationContraction/Metadata')
+        md.attrs['TimeSources'] = np.array([time_sources.encode()])
+        md.attrs['Nt'] = np.array([Nt])
+        inp = md.create_group('DmfInputFiles')
+        for k, s_ in enumerate(inputs):
+            inp.attrs['DmfInputFiles_%d' % k] = np.array([('/some/dir/' + s_ + '.h5').encode()])
+        inp.attrs['n'] = np.array([len(inputs)])
+        for diag, arr in data.items():
+            g = f.create_group('DistillationContraction/Correlators/' + diag)
+            for x0 in range(Nt):
+                g.create_dataset(str(x0), data=_compound(arr[x0]))
+
+
+def distillation_identifier(inputs):
+    res = []
+    for s_ in inputs:
+        f = s_.split('_')
+        res.append((f[0], f[1][1:], f[2], f[3]))
+    return str(tuple(res))
+
+
+def distillation_expect(arr, field):
+    """Documented reduction: average over the source times of the correlator shifted back by its source time."""
+    Nt = len(arr)
+    acc = np.zeros(Nt)
+    for x0 in range(Nt):
+        acc += np.roll(getattr(np.asarray(arr[x0]), field), -x0)
+    return acc / Nt
+
+
+# ------------------------------------------------------------------------------------------------
+# Hadrons NPR modules: ExternalLeg, Bilinear (16 gamma insertions), FourQuarkFullyConnected (32 pairs)
+#   <group>/corr   compound {re, im}, shape (1, 1) + spin-colour shape;   <group>/info attrs pIn, pOut ("a b c d"), gamma / gammaA, gammaB
+# ------------------------------------------------------------------------------------------------
+GAMMA16 = ['Identity', 'Gamma5', 'GammaX', 'GammaY', 'GammaZ', 'GammaT', 'GammaXGamma5', 'GammaYGamma5', 'GammaZGamma5', 'GammaTGamma5',
+           'SigmaXY', 'SigmaXZ', 'SigmaXT', 'SigmaYZ', 'SigmaYT', 'SigmaZT']
+_LOR = ['X', 'Y', 'Z', 'T']
+
+
+def fourquark_pairs(vertex):
+    """(gammaA, gammaB, sign) contributing to a four-quark vertex.  The overall sign of the TTtilde terms follows the
+    library's convention (documented nowhere): (XY,ZT), (XT,YZ), (YZ,XT), (ZT,XY) enter with -1, (XZ,YT), (YT,XZ) with +1."""
+    if vertex == 'TT':
+        return [('Sigma' + _LOR[i] + _LOR[j], 'Sigma' + _LOR[i] + _LOR[j], 1) for i in range(4) for j in range(i + 1, 4)]
+    if vertex == 'TTtilde':
+        return [('SigmaXY', 'SigmaZT', -1), ('SigmaXZ', 'SigmaYT', 1), ('SigmaXT', 'SigmaYZ', -1),
+                ('SigmaYZ', 'SigmaXT', -1), ('SigmaYT', 'SigmaXZ', 1), ('SigmaZT', 'SigmaXY', -1)]
+    if len(vertex) != 2:
+        return None
+    if set(vertex) <= {'S', 'P'}:
+        g = {'S': 'Identity', 'P': 'Gamma5'}
+        return [(g[vertex[0]], g[vertex[1]], 1)]
+    if set(vertex) <= {'V', 'A'}:
+        return [('Gamma' + x + ('Gamma5' if vertex[0] == 'A' else ''), 'Gamma' + x + ('Gamma5' if vertex[1] == 'A' else ''), 1) for x in _LOR]
+    return None
+
+
+FOURQUARK_VERTICES = ['VV', 'VA', 'AV', 'AA', 'SS', 'SP', 'PS', 'PP', 'TT', 'TTtilde']
+
+
+def fourquark_all_pairs():
+    out = []
+    for v in FOURQUARK_VERTICES:
+        for a, b, _ in fourquark_pairs(v):
+            if (a, b) not in out:
+                out.append((a, b))
+    return out
+
+
+def _mom_attr(m):
+    return np.array([' '.join(str(x) for x in m).encode()])
+
+
+def write_npr_file(path, kind, entries, p_in, p_out=None):
+    """kind 'ExternalLeg': entries = [complex array]; 'Bilinear': entries = [(gamma, array)] (16);
+    'FourQuarkFullyConnected': entries = [((gammaA, gammaB), array)] (32)."""
+    import h5py
+    with h5py.File(path, 'w') as f:
+        if kind == 'ExternalLeg':
+            g = f.create_group('ExternalLeg')
+            g.create_dataset('corr', data=_compound(entries[0])[None, None])
+            g.create_group('info').attrs['pIn'] = _mom_attr(p_in)
+            return
+        top = f.create_group(kind)
+        for i, (lab, arr) in enumerate(entries):
+            g = top.create_group('%s_%d' % (kind, i))
+            g.create_dataset('corr', data=_compound(arr)[None, None])
+            info = g.create_group('info')
+            info.attrs['pIn'] = _mom_attr(p_in)
+            info.attrs['pOut'] = _mom_attr(p_out)
+            if kind == 'Bilinear':
+                info.attrs['gamma'] = np.array([lab.encode()])
+            else:
+                info.attrs['gammaA'] = np.array([lab[0].encode()])
+                info.attrs['gammaB'] = np.array([lab[1].encode()])
+
+
+# ------------------------------------------------------------------------------------------------
 # validation of the writers against the repository's sample files
 # ------------------------------------------------------------------------------------------------
 def selfcheck(repo):
